@@ -199,6 +199,10 @@ func (s *icmpDriver) handleProbeLayers(parser *packets.FrameParser) (*common.Pro
 				IsDest: false,
 			}, nil
 		case layers.ICMPv4TypeEchoReply:
+			// only the target itself can prove arrival
+			if ipPair.SrcAddr.Compare(s.params.Target) != 0 {
+				return nil, common.ErrPacketDidNotMatchTraceroute
+			}
 			if parser.ICMP4.Id != s.echoID {
 				return nil, &common.BadPacketError{Err: fmt.Errorf("mismatched echo ID")}
 			}
@@ -254,6 +258,10 @@ func (s *icmpDriver) handleProbeLayers(parser *packets.FrameParser) (*common.Pro
 				IsDest: false,
 			}, nil
 		case layers.ICMPv6TypeEchoReply:
+			// only the target itself can prove arrival
+			if ipPair.SrcAddr.Compare(s.params.Target) != 0 {
+				return nil, common.ErrPacketDidNotMatchTraceroute
+			}
 			payload := parser.ICMP6.Payload
 			if len(payload) < 4 {
 				return nil, errPacketDidNotMatchTraceroute
